@@ -213,6 +213,7 @@ static void do_pair(const jv *v)
 {
     const jv *jf = jv_at(v, 1), *jt = jv_at(v, 2); int eq = (int)jv_int(jv_at(v, 3)), tonull = (int)jv_int(jv_at(v, 4)); char why[300] = "";
     cJSON *from = vb_build(jf), *to = vb_build(jt), *p, *copy; int st;
+    vb_payload(from, (int)(VD.cases & 1)); vb_payload(to, (int)((VD.cases >> 1) & 1));      /* the two documents need not have been built the same way */
     /* --- RFC 6902 generation --- */
     al_window(0); p = cJSONUtils_GeneratePatchesCaseSensitive(from, to);
     if (!p || (p->type & 0xFF) != cJSON_Array) viol("C17", "GeneratePatchesCaseSensitive did not return an array");
@@ -239,7 +240,15 @@ static void do_pair(const jv *v)
         if (!still_editable(from, why, sizeof(why)) || !still_editable(to, why, sizeof(why))) viol("C18 C19", "input document after merge patch generation: %s", why);
         cJSON_Delete(mp);
     }
-    cJSON_Delete(from); cJSON_Delete(to);
+    /* the generated patches own what they hold: they are used after both inputs are gone */
+    {
+        cJSON *p2 = cJSONUtils_GeneratePatchesCaseSensitive(from, to), *mp2 = tonull ? NULL : cJSONUtils_GenerateMergePatchCaseSensitive(from, to), *c1 = cJSON_Duplicate(from, 1), *c2 = cJSON_Duplicate(from, 1), *res2;
+        cJSON_Delete(from); cJSON_Delete(to);
+        st = cJSONUtils_ApplyPatchesCaseSensitive(c1, p2);
+        if (st != 0 || !sem_equal(jt, c1)) viol("C17 C07", "the generated patch, applied after both input documents were deleted, does not give 'to' (status %d): it does not own its memory", st);
+        if (!tonull) { res2 = mp2 ? cJSONUtils_MergePatchCaseSensitive(c2, mp2) : c2; if (!res2 || !sem_equal(jt, res2)) viol("C18 C07", "the generated merge patch, applied after both input documents were deleted, does not give 'to': it does not own its memory"); c2 = res2; }
+        cJSON_Delete(p2); cJSON_Delete(mp2); cJSON_Delete(c1); cJSON_Delete(c2);
+    }
     if (al_live != 0 || al_bad_free) viol("C07 C17 C18", "%ld block(s) leaked / %ld invalid releases by patch generation", al_live, al_bad_free);
     /* the same documents as the construction API builds them with constant keys and string references: ownership flags
      * on the nodes change nothing */
@@ -302,6 +311,7 @@ static long claim_tree(const cJSON *t)          /* tags every block the tree own
     if (!(t->type & cJSON_IsReference)) for (c = t->child; c; c = c->next) bad += claim_tree(c);
     return bad;
 }
+static long jv_weight(const jv *v) { long n = 1; size_t k; if (!v) return 0; if (v->t == JV_ARR) for (k = 0; k < v->n && n < 100000; k++) n += jv_weight(v->e[k]); return n; }
 static int obj_depth(const cJSON *t) { const cJSON *c; int d = 0, x; for (c = t->child; c; c = c->next) { x = obj_depth(c); if (x > d) d = x; } return d + (((t->type & 0xFF) == cJSON_Object) ? 1 : 0); }
 static void do_dup(const jv *v)
 {
@@ -335,6 +345,30 @@ static void do_dup(const jv *v)
     if (!vb_equal(jv_at(v, 1), copy, why, sizeof(why), 0)) viol("C11", "deleting the source changed the duplicate: %s", why);
     cJSON_Delete(copy);
     if (al_live != 0 || al_bad_free) viol("C11 C07", "%ld block(s) remain / %ld invalid releases after deleting source and duplicate", al_live, al_bad_free);
+    /* the same tree with its nested containers held through reference nodes (dozens of references nested in one another for the deep cases), and the
+     * innermost shared container referenced twice by neighbouring reference nodes: a duplicate is an owned copy of all of it */
+    {
+        cJSON *s2, *deepest = NULL, *par = NULL, *x, *c2; int depth = 0;
+        cm_case_begin(); s2 = jv_weight(jv_at(v, 1)) <= 1500 ? vb_build_shared(jv_at(v, 1)) : NULL;
+        if (s2 && vb_pool_count()) {
+            for (x = s2; x; x = x->child) { cJSON *y = x->child; while (y && !(y->type & cJSON_IsReference)) y = y->next; if (!y) break; par = x; deepest = y; depth++; x = y; if (depth > 5000) break; }
+            al_window(0); c2 = cJSON_Duplicate(s2, 1);
+            if (!c2) viol("C11", "cJSON_Duplicate returned NULL for a well-formed tree whose nested containers are held through %d nested reference nodes", depth);
+            else { if (!vb_equal(jv_at(v, 1), c2, why, sizeof(why), 0)) viol("C11", "the duplicate of a tree with reference nodes differs from the source: %s", why);
+                   for (b = al_all; b; b = b->nextall) b->tag = 0;
+                   { int i; long bad2 = claim_tree(s2) + claim_tree(c2); for (i = 0; i < vb_pool_count(); i++) bad2 += claim_tree(vb_pool_owner(i)); if (bad2) viol("C11", "the duplicate shares %ld block(s) with the source or with the containers the source only refers to", bad2); }
+                   cJSON_Delete(c2); }
+            if (deepest && par && (par->type & 0xFF) == cJSON_Array) {
+                cJSON *twin = (cJSON*)al_raw(sizeof(cJSON)); char *p1, *p2;
+                *twin = *deepest; twin->string = NULL; twin->next = deepest->next; twin->prev = deepest; if (deepest->next) deepest->next->prev = twin; else par->child->prev = twin; deepest->next = twin;
+                al_window(0); c2 = cJSON_Duplicate(s2, 1);
+                if (!c2) viol("C11", "cJSON_Duplicate returned NULL for a well-formed, non-circular tree in which two neighbouring reference nodes (below %d nested reference nodes) refer to the same container", depth - 1);
+                else { p1 = cJSON_PrintUnformatted(s2); p2 = cJSON_PrintUnformatted(c2); if (!p1 || !p2 || strcmp(p1, p2)) viol("C11", "the duplicate of a tree with two references to one container prints differently"); cJSON_free(p1); cJSON_free(p2); cJSON_Delete(c2); }
+            }
+        }
+        cJSON_Delete(s2); vb_pool_release();
+        if (al_live != 0 || al_bad_free) viol("C11 C07", "%ld block(s) remain after duplicating a tree with shared containers", al_live);
+    }
 }
 /* ["S", keys, cs]: sorting an object with these member keys; the resulting order is recorded for MC_UtilCheck (C19) */
 static void do_sort(const jv *v)
@@ -370,10 +404,20 @@ static void do_sort(const jv *v)
  * folded variant) and the 7 digits of (i * stride) mod n: distinct, far from sorted.  Verdict = SortVerdict of MC_UtilCheck: the same member nodes,
  * keys non-decreasing in byte order / ASCII-folded order. */
 static int fold_cmp(const char *a, const char *b) { for (;; a++, b++) { int x = (unsigned char)*a, y = (unsigned char)*b; if (x >= 'A' && x <= 'Z') x += 32; if (y >= 'A' && y <= 'Z') y += 32; if (x != y) return x - y; if (!x) return 0; } }
+static int scale_pattern;      /* 0: stride; 1: ascending blocks of two in descending block order; 2: strictly descending; 3: ascending blocks of three, descending */
+static long scale_rank(long i, long n, long st)
+{
+    switch (scale_pattern) {
+        case 1: return ((n - 1 - i) / 2) * 2 + (1 - ((n - 1 - i) & 1)) < n ? ((n - 1 - i) / 2) * 2 + (1 - ((n - 1 - i) & 1)) : n - 1;
+        case 2: return n - 1 - i;
+        case 3: { long b = (n - 1 - i) / 3, r = 2 - ((n - 1 - i) % 3), v = b * 3 + r; return v < n ? v : n - 1 - i; }
+        default: return (i * st) % n;
+    }
+}
 static cJSON *scale_object(long n, long st, int mixcase, long skip, long change)
 {
     cJSON *o = cJSON_CreateObject(); long i; char key[16];
-    for (i = 0; i < n; i++) { if (i == skip) continue; snprintf(key, sizeof(key), "%c%07ld", (mixcase && (i & 1)) ? 'K' : 'k', (i * st) % n); cJSON_AddItemToObject(o, key, cJSON_CreateNumber(i == change ? -5.0 : (double)(i % 1000))); if ((i & 4095) == 0) vd_tick(); }
+    for (i = 0; i < n; i++) { if (i == skip) continue; snprintf(key, sizeof(key), "%c%07ld", (mixcase && (i & 1)) ? 'K' : 'k', scale_rank(i, n, st)); cJSON_AddItemToObject(o, key, cJSON_CreateNumber(i == change ? -5.0 : (double)(i % 1000))); if ((i & 4095) == 0) vd_tick(); }
     return o;
 }
 static long count_sorted(const cJSON *o, int cs, int *sorted, int *links)
@@ -386,7 +430,8 @@ static long count_sorted(const cJSON *o, int cs, int *sorted, int *links)
 static void do_scale_sort(const jv *v)
 {
     long n = jv_int(jv_at(v, 1)), st = jv_int(jv_at(v, 2)); int cs;
-    for (cs = 1; cs >= 0; cs--) {
+    for (scale_pattern = 0; scale_pattern < (n > 200000 ? 4 : 1); scale_pattern++)       /* the order of the keys matters for a merge sort: four shapes at the largest size */
+    for (cs = 1; cs >= (scale_pattern ? 1 : 0); cs--) {
         cJSON *o = scale_object(n, st, !cs, -1, -1); int sorted, links; long m;
         al_window(0);
         if (cs) cJSONUtils_SortObjectCaseSensitive(o); else cJSONUtils_SortObject(o);
@@ -399,6 +444,7 @@ static void do_scale_sort(const jv *v)
         if (al_live != 0 || al_bad_free) { viol("C19 C07", "%ld block(s) remain after deleting the sorted object of %ld members (members lost?)", al_live, n); al_case_begin(); }
         by[0]++;
     }
+    scale_pattern = 0;
     if (n <= 100000) {   /* patch and merge-patch generation sort both documents: they stay complete, the patch names exactly what differs */
         cJSON *from = scale_object(n, st, 0, -1, -1), *to = scale_object(n, st, 0, n / 3, n / 2), *mp, *p; int s1, l1; long cf, ct; char k1[16], k2[16];
         snprintf(k1, sizeof(k1), "k%07ld", ((n / 3) * st) % n); snprintf(k2, sizeof(k2), "k%07ld", ((n / 2) * st) % n);
